@@ -50,9 +50,12 @@ def gen_case(rng: random.Random, tier: str):
     ptrs = any(has_ptr(sd) for sd in defs["structs"])
     for t in range(nthreads):
         ops = ["parse"]
-        if ptrs and rng.random() < 0.7:
+        r = rng.random()
+        if r < 0.35:
+            ops.append("dumps")  # the write path shares the same type objects
+        elif ptrs and r < 0.75:
             ops.append("deref")  # lazy dereference is deferred I/O on the thread's own stream through SHARED pointer types
-        elif rng.random() < 0.5:
+        elif r < 0.85:
             ops.append(rng.choice(["dumps", "deref", "parse2"]))
         threads.append({"data_seed": rng.getrandbits(32), "data": None, "ops": ops, "root": rng.randrange(8)})
     return {"cfg": cfg, "defs": defs, "threads": threads, "sched_seed": rng.getrandbits(32),
@@ -203,7 +206,7 @@ def run_case(case, stats):
         for tid, key in sch0.trace:
             per.setdefault(tid, []).append(key)
         ta = per.get(A, [])
-        n_over = 10 if case["n_sched"] <= 24 else 40
+        n_over = 16 if case["n_sched"] <= 24 else 60
         for _ in range(n_over):
             B = srng.choice([t for t in order if t != A])
             tb = per.get(B, [])
